@@ -22,10 +22,16 @@ func TestVerifC13H(t *testing.T) {
 	roots := []string{vBundledRoot}
 	if g := vGenRoot(); g != "" {
 		roots = append(roots, g)
+		if x := vGenExtraRoot(); x != "" {
+			roots = append(roots, x) // a 10 MHz video timescale
+		}
 	}
 	job := 0
 	for _, root := range roots {
 		for _, ap := range vAssetPaths(root) {
+			if !vExtraWanted(root, ap, "x_ts_10mhz") {
+				continue
+			}
 			if vTimeOffsetAsset(ap) {
 				continue
 			}
